@@ -75,7 +75,9 @@ def prop_C11(tier, seed, rng):
     s5 = part_gen.generate("c11pairs", 1500 if quick else 100000, seed + 18)
     fams = [Family("tlc", "part", "PartTrace", s1, g1), Family("shaped", "part", "PartTrace", s2),
             Family("dense", "part", "PartTrace", s3), Family("boundary", "part", "PartTrace", s4),
-            Family("pairs", "part", "PartTrace", s5)]
+            Family("pairs", "part", "PartTrace", s5),
+            # trees 30-64 levels deep branching at every level: iterators with more than 32 pending sibling sets
+            Family("deep", "part", "PartTrace", part_gen.generate("c11deep", 40 if quick else 800, seed + 21))]
     return design, fams, ["C11_"], dict(
         rule="scripts = (a) one per transition of the bounded PartTree.tla state graph (TLC BFS+VIEW), "
              "(b) shaped random histories (fan-outs across 4/16/48/256, chains, binary keys, branching, clones, "
